@@ -202,12 +202,4 @@ def run(rep, info, model, tier, seed):
 
 
 def replay(body):
-    sc = fam.unjson_sc(body["scenario"])
-    r = simnet.run_impl(sc)
-    tr = simnet.canon_trace(r.trace)
-    res = oracle(sc, tr, dict(escaped=r.escaped))
-    for x in fam.timeline(sc, tr):
-        if x["kind"] in ("ev", "write"):
-            print(x["t"], x["kind"], x.get("code"), (x.get("frame") or {}).get("op"))
-    print("REPLAY:", ("VIOLATION reproduced: %s" % res[0]) if res else "property holds on this input")
-    return 1 if res else 0
+    return fam.replay_generic(body, {"C15:timer-histories": oracle}, show=80)
